@@ -332,3 +332,18 @@ check(
     "DESIGN.md section 3 C16",
     "gridlab",
 )
+
+ENGINES[-1 if ENGINES[-1]["name"] == "gridlab" else 2]["serves_properties"].append("C15")
+check(
+    "C15",
+    "exploration",
+    "Hypothesis-generated histories (1..4 steps) of redistributePoints + calculateRZ calls on non-orthogonal meshes, with "
+    "generated subsets of the nonorthogonal_* settings (returning to earlier values, changing the spacing method, "
+    "geometry() in between, dictionaries that also change other settings) are executed in a worker exactly as the GUI "
+    "does; after each step the region end faces must not have moved, and the final grid is compared with a mesh built from "
+    "scratch with the original other settings and the final non-orthogonal settings.",
+    "Histories bounded to 4 steps; tolerance 1e-6 + 20 (L/Nfine)^2 in position. One scoped known finding (spacing method).",
+    "history generation (Hypothesis) with a from-scratch reference build as oracle",
+    "DESIGN.md section 3 C15",
+    "gridlab",
+)
